@@ -1,11 +1,15 @@
 #!/bin/bash
-# run every check of a tier sequentially; print exit code and wall time per check
+# run every check of a tier sequentially; print exit code and wall time per check (+ capped scenarios)
 tier=${1:-quick}; shift
 ids=${@:-C01 C02 C03 C04 C05 C06 C07 C08 C09 C10 C11 C12 C13 C14 C15 C16 C17 C18 C19 C20}
 cd "$(dirname "$0")/.."
+tmp=$(mktemp -d)
 for id in $ids; do
   s=$(date +%s.%N)
-  out=$(./check $id --tier $tier 2>/tmp/runall_$id.err); rc=$?
+  out=$(./check $id --tier $tier 2>$tmp/$id.err); rc=$?
   e=$(date +%s.%N)
-  printf "%s rc=%d %6.1fs %s\n" $id $rc $(echo "$e - $s" | bc) "$(echo "$out" | grep -c -E '^(VIOLATION|KNOWN)') lines; $(tail -1 /tmp/runall_$id.err | cut -c1-110)"
+  printf "%s rc=%d %6.1fs %s\n" $id $rc $(echo "$e - $s" | bc) "$(echo "$out" | grep -c -E '^(VIOLATION|KNOWN)') lines; $(tail -1 $tmp/$id.err | cut -c1-110)"
+  grep -E "CAPPED|misbehaves" $tmp/$id.err | cut -c1-150
+  if [ "$VERIF_SHOW_SCEN" = 1 ]; then grep -E "^\[$id\] .*states=" $tmp/$id.err | cut -c1-130; fi
 done
+rm -rf $tmp
